@@ -314,7 +314,7 @@ def segRangeLoop (op : Op) (t : List RV) : Nat → Nat → Nat → RV → RV
 /-- `SegmentTree::range(lo, hi)`, inclusive -/
 def Seg.range (s : Seg) (lo hi : Nat) : RV :=
   if hi < lo ∨ s.n ≤ lo then s.op.identity
-  else segRangeLoop s.op s.tree (s.size + 1) (lo + s.size) (min hi (s.n - 1) + s.size + 1) s.op.identity
+  else segRangeLoop s.op s.tree (2 * s.size + 1) (lo + s.size) (min hi (s.n - 1) + s.size + 1) s.op.identity
 
 def segSetLoop (op : Op) : Nat → List RV → Nat → List RV
   | 0, t, _ => t
@@ -327,7 +327,7 @@ def segSetLoop (op : Op) : Nat → List RV → Nat → List RV
 /-- `SegmentTree::set(pos, value)` -/
 def Seg.set (s : Seg) (pos : Nat) (v : RV) : Seg :=
   if s.n ≤ pos then s
-  else { s with tree := segSetLoop s.op (s.size + 1) (s.tree.set (pos + s.size) v) (pos + s.size) }
+  else { s with tree := segSetLoop s.op (2 * s.size) (s.tree.set (pos + s.size) v) (pos + s.size) }
 
 /-! ### nested-set index with its roll-up structures -/
 
@@ -493,6 +493,28 @@ def ChainIdx.rollup (I : ChainIdx) (op : Op) (y : Nat) : RV :=
   | .min => fold I.sufMin
   | .max => fold I.sufMax
 
+/-! executable well-formedness checks of the two graph algorithms the chain encoding rests on
+(hypotheses of `C28_chain_reach_iff_partial`; the driver evaluates them on every chain case) -/
+
+/-- `order` lists every node once, every child before its parents -/
+def topoOkB (P : Poset) (order : List Nat) : Bool :=
+  nodupNat order && (List.range P.n).all (fun v => order.contains v)
+  && P.edges.all (fun e => order.idxOf e.1 < order.idxOf e.2)
+  && order.all (fun v => v < P.n)
+
+/-- consecutive elements of a chain are parent, child -/
+def pathOkB (P : Poset) : List Nat → Bool
+  | [] => true
+  | [_] => true
+  | a :: b :: r => P.edges.contains (b, a) && pathOkB P (b :: r)
+
+/-- every node sits where `chainOf` says, and every chain is a downward path -/
+def chainsOkB (P : Poset) (C : Chain) : Bool :=
+  (List.range P.n).all (fun v =>
+    let cp := C.chainOf.getD v (0, 0)
+    (C.chains.getD cp.1 [])[cp.2]? == some v)
+  && C.chains.all (pathOkB P)
+
 /-- minimal elements of the common upper bounds, by the index's own subsumption test -/
 def lcaBy (n : Nat) (sub : Nat → Nat → Bool) (x y : Nat) : List Nat :=
   let common := (List.range n).filter (fun c => sub x c && sub y c)
@@ -533,7 +555,7 @@ def viaException (N : Near) : Nat → Nat → Nat → List Nat → Bool × List 
       else viaException N f e.2 y (e.2 :: st.2)) (false, seen)
 
 def Near.subsumes (N : Near) (x y : Nat) : Bool :=
-  N.lab.subsumes x y || (viaException N (N.exceptions.length + 1) x y []).1
+  N.lab.subsumes x y || (viaException N (N.lab.tin.length + 1) x y []).1
 
 /-- the frontier loop of `descendants` (a stack; `seen` kept as a sorted duplicate-free list) -/
 def nearDescLoop (N : Near) : Nat → List Nat → List Nat → List Nat
